@@ -492,10 +492,16 @@ def Get_Pmat(axis_1: _types.FloatArray, axis_2: _types.FloatArray, useMandel=Tru
 
     # normalize thoses vectors
     axis_1 = np.einsum(
-        f"i{id},{id}->i{id}", axis_1, np.linalg.norm(axis_1, axis=0), optimize="optimal"
+        f"i{id},{id}->i{id}",
+        axis_1,
+        1 / np.linalg.norm(axis_1, axis=0),
+        optimize="optimal",
     )
     axis_2 = np.einsum(
-        f"i{id},{id}->i{id}", axis_2, np.linalg.norm(axis_2, axis=0), optimize="optimal"
+        f"i{id},{id}->i{id}",
+        axis_2,
+        1 / np.linalg.norm(axis_2, axis=0),
+        optimize="optimal",
     )
 
     # Checks whether the two vectors are perpendicular
